@@ -22,6 +22,7 @@ let () =
     Printf.printf "acyclic %s\n" (b2s (check_acyclic pr so));
     Printf.printf "temporal %s\n" (b2s (check_temporal pr so));
     Printf.printf "ctors %s\n" (b2s (check_ctors pr so && check_field_vars pr so));
+    Printf.printf "argtypes %s\n" (b2s (check_arg_types pr so));
     Printf.printf "domains %s\n" (b2s (check_domains pr so));
     Printf.printf "solution %s\n" (b2s (check_solution pr so));
     (* diagnostics (not part of the verdict): which top-level statement / atom / object / variable fails *)
@@ -34,11 +35,19 @@ let () =
       | SDisj (l, cs) -> SDisj (l, List.map (List.map strip_stmt) cs)
       | x -> x in
     let spr = { pr with p_preds = List.map (fun pd -> { pd with pd_body = List.map strip_stmt pd.pd_body }) pr.p_preds } in
+    (* ... and with the arguments of the formula statements dropped as well: what is left is "the subgoal is in the plan" *)
+    let rec strip_args (st : stmt) : stmt =
+      match st with
+      | SExpr _ -> SExpr (EBool true)
+      | SDisj (l, cs) -> SDisj (l, List.map (List.map strip_args) cs)
+      | SFormula (f, x, sc, p, _) -> SFormula (f, x, sc, p, [])
+      | x -> x in
+    let apr = { pr with p_preds = List.map (fun pd -> { pd with pd_body = List.map strip_args pd.pd_body }) pr.p_preds } in
     List.iter (fun ar ->
         (match ar.a_state with
          | Active ->
            if not (active_okb pr so ar) then
-             Printf.printf "fail-rules %d %s\n" (int_of_n ar.a_id) (if active_okb spr so ar then "constraint" else "structure");
+             Printf.printf "fail-rules %d %s\n" (int_of_n ar.a_id) (if active_okb spr so ar then "constraint" else if active_okb apr so ar then "argument" else "structure");
            if not (check_temporal pr { so with s_atoms = [ar] }) then Printf.printf "fail-temporal %d\n" (int_of_n ar.a_id)
          | Unified -> if not (unified_okb pr so ar) then Printf.printf "fail-unified %d\n" (int_of_n ar.a_id)
          | Inactive -> ());
@@ -51,6 +60,7 @@ let () =
                  (String.concat "," (List.map (fun x -> string_of_int (int_of_n x)) l))
                  (String.concat "," (List.map (fun (p, _) -> string_of_int (int_of_n p)) ar.a_rules))
            | None -> Printf.printf "factrules-mismatch %d model=outoffuel\n" (int_of_n ar.a_id))) so.s_atoms;
+    List.iter (fun ar -> if not (check_arg_types pr { so with s_atoms = [ar] }) then Printf.printf "fail-argtype %d\n" (int_of_n ar.a_id)) so.s_atoms;
     List.iter (fun o -> if not (check_ctors pr { so with s_objs = [o] }) then Printf.printf "fail-ctor %d\n" (int_of_n o.o_id)) so.s_objs;
     List.iter (fun v -> if not (check_domains pr { so with s_vars = [v] }) then Printf.printf "fail-domain %d\n" (int_of_n v.v_name)) so.s_vars;
     Printf.printf "edges%s\n" (String.concat "" (List.map (fun (a, b) -> Printf.sprintf " %d>%d" (int_of_n a) (int_of_n b)) (support_edges pr so)));
